@@ -196,7 +196,11 @@ slot_base::operator=(const slot_base& src)
   if (rep_) // Silently exchange the slot_rep.
   {
     new_rep_->set_parent(rep_->parent_, rep_->cleanup_);
-    delete rep_; // Calls destroy(), but does not call disconnect().
+    // Install the new slot_rep before the old one is deleted: if the inherited parent is the
+    // old slot_rep or a slot held by its functor, it detaches itself from the new slot_rep.
+    auto old_rep_ = rep_;
+    rep_ = new_rep_;
+    delete old_rep_; // Calls destroy(), but does not call disconnect().
   }
 
   rep_ = new_rep_;
@@ -242,7 +246,10 @@ slot_base::operator=(slot_base&& src)
   if (rep_) // Silently exchange the slot_rep.
   {
     new_rep_->set_parent(rep_->parent_, rep_->cleanup_);
-    delete rep_; // Calls destroy(), but does not call disconnect().
+    // Install the new slot_rep before the old one is deleted, see operator=(const slot_base&).
+    auto old_rep_ = rep_;
+    rep_ = new_rep_;
+    delete old_rep_; // Calls destroy(), but does not call disconnect().
   }
   rep_ = new_rep_;
   return *this;
